@@ -9,12 +9,19 @@ pub const ND: usize = 12;
 pub const ND_CLASSIC: usize = 4;
 
 /// the dynamic ids behind the small indices the generators use: index 0 is the id of the typed API;
-/// the others differ in their low and in their high halves, and two of them agree in the low 32 bits
+/// the others differ in their low and in their high halves, two of them agree in the low 32 bits, and the
+/// extended universe adds direct neighbours of the boundary values
 pub fn dyn_id(d: u8) -> u64 {
-    if d < 4 {
-        [0, 1, 1 << 32, u64::MAX][d as usize]
-    } else {
-        d as u64
+    match d {
+        0 => 0,
+        1 => 1,
+        2 => 1 << 32,
+        3 => u64::MAX,
+        // neighbours of the boundary values
+        4 => u64::MAX - 1,
+        5 => (1 << 32) - 1,
+        6 => 1 << 63,
+        _ => d as u64,
     }
 }
 
